@@ -14,4 +14,6 @@ python3 ../../props/C07/simdfacts.py "${VERIF_REPO:-/repo}" gen/SimdFacts.v.new 
   && { cmp -s gen/SimdFacts.v.new gen/SimdFacts.v || mv gen/SimdFacts.v.new gen/SimdFacts.v; rm -f gen/SimdFacts.v.new; }
 python3 ../../props/C07/distfacts.py "${VERIF_REPO:-/repo}" gen/DistFacts.v.new \
   && { cmp -s gen/DistFacts.v.new gen/DistFacts.v || mv gen/DistFacts.v.new gen/DistFacts.v; rm -f gen/DistFacts.v.new; }
+python3 ../../props/C07/pcgfacts.py "${VERIF_REPO:-/repo}" gen/PcgFacts.v.new \
+  && { cmp -s gen/PcgFacts.v.new gen/PcgFacts.v || mv gen/PcgFacts.v.new gen/PcgFacts.v; rm -f gen/PcgFacts.v.new; }
 true
